@@ -160,6 +160,22 @@ CLAIMED = {
         "filler blocks are balanced markup from a catalogue; full-tree disagreement with the machine twin is DRIFT.",
         "DESIGN.md §5 C02, notes/C02.md",
     ),
+    "C03": (
+        ["ParserStruct", "Gen_ParserStruct", "Trace_ParserStruct"],
+        "TLA+ twin of the table / HTML element / link / template-call fragment of the parser: the written structure (grid, element, call) is the value TLC starts from, Render produces the token sequence, MachineTree transcribes the handlers, TreeOf is the tree the property demands; "
+        "TLC checks MachineTree(Render(g, style)) = TreeOf(g); every structure concretised and parsed by the real parser; random larger pages recorded and validated by a TLC trace spec",
+        "Bounded-exhaustive grids <=3x3 (quick) / <=4x4 (thorough) x two separator styles x attribute maps x content catalogue, every paired tag of the allowed-tag table read from the working tree, calls/links with written argument lists.",
+        "cell contents from a catalogue; whitespace at block boundaries normalised by the TLA+ Equiv-style operator; preconditions listed in notes/C03.md (pipes inside HTML inside template arguments etc.).",
+        "DESIGN.md §5 C03, notes/C03.md",
+    ),
+    "C19": (
+        ["Unparse", "MC_Unparse", "Gen_Unparse", "Trace_Unparse"],
+        "TLA+ transcription of to_wikitext / to_attrs per node kind, a document grammar enumerated by TLC, and the Equiv operator (whitespace at block boundaries); MC round trip inside the model; "
+        "for every generated document the real chain parse -> node_to_wikitext -> parse -> node_to_wikitext -> parse is run and the tree triples validated by TLC (Equiv, fixed point); subtrees / child lists passed directly; literal '[[' text",
+        "Bounded-exhaustive document grammar to depth 3 (quick) / 4 (thorough), two spellings, ~50 k (quick) / 300 k (thorough) evaluated texts and directly passed values.",
+        "URL-safe attribute values; whitespace equivalence lives only in the TLA+ operator Equiv.",
+        "DESIGN.md §5 C19, notes/C19.md",
+    ),
 }
 NOT_YET = "check not built yet in this round (see DESIGN.md §10 build order); nothing is claimed for it"
 
